@@ -11,11 +11,11 @@ import Biogo.Proofs.Morass
 namespace Biogo.Properties.C11
 open Biogo.Morass
 
-theorem init_fresh (c : Nat) (ac : Bool) : Fresh c ac (init c ac) :=
-  ⟨rfl, rfl, rfl, rfl, rfl, rfl, rfl, rfl⟩
+theorem init_fresh (c : Nat) (ac : Bool) : Fresh c ac 0 (init c ac) :=
+  ⟨rfl, rfl, rfl, Nat.le_refl 0, rfl, rfl, rfl, rfl⟩
 
 theorem history_from_fresh {c : Nat} {ac : Bool} (hc : 1 ≤ c) :
-    ∀ (h : List Cycle) {s : State}, Fresh c ac s → wellFormed ac h = true →
+    ∀ (h : List Cycle) {s : State}, Fresh c ac 0 s → wellFormed ac h = true →
       HistorySpec ac h (run s (histOps h)).2 := by
   intro h
   induction h with
@@ -167,7 +167,7 @@ theorem range_filterMap_getElem? (ys : List Elem) (k : Nat) :
   induction k with
   | zero => simp
   | succ k ih =>
-    rw [List.range_succ, List.filterMap_append, ih, List.take_succ]
+    rw [List.range_succ, List.filterMap_append, ih, List.take_add_one]
     cases h : ys[k]? <;> simp [h]
 
 /-- The values delivered by the pulls of a cycle are the first `pulls` entries of `ys`. -/
